@@ -192,10 +192,9 @@ def observe(w):
 
 
 def state_fp(w):
-    d = {k: w.__dict__.get(k) for k in ("idx_", "y_", "sample_weight_", "base_idx_", "base_y_", "base_sample_weight_")}
-    d["clf"] = F.canon(w.__dict__.get("clf_"), skip=("random_state_",)) if "clf_" in w.__dict__ else None
-    d["base"] = F.canon(w.__dict__.get("base_clf_"), skip=("random_state_",)) if "base_clf_" in w.__dict__ else None
-    return F.digest(F.canon(d))
+    # values and sharing structure of the bookkeeping attributes in one walk (an aliased base model has different futures)
+    d = {k: w.__dict__.get(k) for k in ("idx_", "y_", "sample_weight_", "base_idx_", "base_y_", "base_sample_weight_", "clf_", "base_clf_")}
+    return F.fp_merge(d)
 
 
 def fmt(h):
@@ -265,7 +264,8 @@ def explore(acc, cfg, tier):
                             fmt(h2), k, np.round(got[k], 5).tolist(), np.round(want[k], 5).tolist()), wit, {"last": op[0], "output": k}, rep, size)
                         break
                 acc.outcome((name, got["proba"].tobytes()))
-                k = state_fp(w)
+                # merge key: implementation state x reference-model state; histories are merged only if both agree
+                k = (state_fp(w), repr((ref.cur, ref.base)))
                 if k not in seen:
                     if len(seen) >= b["max_states"]:
                         capped = True
